@@ -64,6 +64,8 @@ func cmdGen(args []string) {
 			b = g.behC03()
 		case "C18":
 			b = g.behC18()
+		case "C11":
+			b = g.behC11()
 		default:
 			if fn, ok := genFns[*prop]; ok {
 				b = fn(g)
@@ -1082,4 +1084,35 @@ func (g *gen) behC18() M {
 	}
 	steps = append(steps, send(M{"t": "Q", "q": g.trivialQ()}))
 	return M{"cfg": cfg, "steps": steps}
+}
+
+// behC11: whole sessions (simple, extended, COPY) run inside the TLS session,
+// or in plaintext after 'N'; SSLRequest with or without stuffed plaintext.
+func (g *gen) behC11() M {
+	var b M
+	switch g.rng.Intn(3) {
+	case 0:
+		b = g.behC05()
+	case 1:
+		b = g.behC06()
+	default:
+		b = g.behC13()
+	}
+	cfg := run.AsM(b["cfg"])
+	steps := b["steps"].([]any)
+	for _, sv := range steps {
+		delete(run.AsM(sv), "nowait")
+	}
+	switch g.rng.Intn(5) {
+	case 0:
+		cfg["tls"] = g.pick("nil", "empty")
+		steps = append([]any{send(M{"t": "SSLRequest", "stuffed": false})}, steps...)
+	case 1:
+		cfg["tls"] = "cert" // certificates configured, the client does not ask for TLS
+	default:
+		cfg["tls"] = "cert"
+		steps = append([]any{send(M{"t": "SSLRequest", "stuffed": g.chance(0.3)}), M{"k": "tls"}}, steps...)
+	}
+	b["steps"] = steps
+	return b
 }
